@@ -209,6 +209,33 @@ Fixpoint set_insert (l : locus) (s : list locus) : list locus :=
 Definition set_union (ls : list locus) (s : list locus) : list locus :=
   fold_left (fun acc l => set_insert l acc) ls s.
 
+(* i_mep::begin() .. end(): the loci the iterator visits, in order.  operator++ erases the
+   current (smallest) locus and inserts the arguments of the gene that is there. *)
+Fixpoint walk (fuel : nat) (g : genome) (loci : list locus) : option (list locus) :=
+  match fuel with
+  | O => None
+  | S f =>
+      match loci with
+      | [] => Some []
+      | l :: rest =>
+          match gene_at g l with
+          | None => None
+          | Some ge => match walk f g (set_union (arguments ge) rest) with
+                       | Some w => Some (l :: w)
+                       | None => None
+                       end
+          end
+      end
+  end.
+Definition active_loci (g : genome) : option (list locus) := walk (S (rows g * cats g)) g [best g].
+(* i_mep::active_symbols() = std::distance(begin(), end()) *)
+Definition active_symbols (g : genome) : option nat := option_map (@length locus) (active_loci g).
+(* i_mep::blocks(): the active loci that hold a function *)
+Definition blocks (g : genome) : option (list locus) :=
+  option_map (filter (fun l => match gene_at g l with
+                               | Some ge => negb (is_terminal (g_sym ge))
+                               | None => false end)) (active_loci g).
+
 (* i_mep::mutation(pgm, prb): the iterator walks the active loci in locus
    order; ++ replaces the current locus by the arguments of the gene that is
    there NOW (i.e. after a mutation of that gene).  Returns the genome and the
